@@ -136,9 +136,46 @@ pub fn generate(tier: &str, rng: &mut Rng) -> (Vec<String>, bool) {
             }
         }
     }
+    // Polars cells (thorough tier; the harness is then built with `--features polars`)
+    if thorough {
+        for k in 1..=3 {
+            for len in 0..=5 {
+                for s in all_series(&["_", "1", "2"], len) {
+                    out.push(format!("acc b=pl{} xs={}", k, join(&s)));
+                }
+            }
+        }
+        let mut k = 0usize;
+        for f in ROLL.iter().filter(|f| f.nullable && f.arity == 1 && f.family != "fdiff") {
+            for len in 0..=5 {
+                for s in all_series(&["_", "1", "3"], len) {
+                    let xs: Vec<String> = s.iter().enumerate().map(|(i, v)| if v == "_" { v.clone() } else { format!("{}", v.parse::<i64>().unwrap() + (i as i64 % 3)) }).collect();
+                    for w in [1, 2, 3, len + 1] {
+                        if w > len + 2 { continue; }
+                        let mp = [None, Some(1.min(w)), Some(w)][k % 3];
+                        if mp.is_none() && f.mp_none_needs_len_ge_w && len < w { continue; }
+                        k += 1;
+                        out.push(format!("{} w={} mp={} b=pl{} t=of64 o=f64 xs={}{}", f.name, w, mp_tok(mp), 1 + k % 3, join(&xs), f.extra));
+                        // ChunkedArray as output container (returned path), from a Polars, a VecDeque and a Vec input
+                        let b = ["pl2", "deque1", "vec"][k % 3];
+                        out.push(format!("{} w={} mp={} b={} oc=pl t=of64 o=of64 xs={}{}", f.name, w, mp_tok(mp), b, join(&xs), f.extra));
+                    }
+                }
+            }
+        }
+    }
     (out, true)
 }
 
+/// F44: a fast-path input backend (Vec / array / ndarray) asked to return a Polars ChunkedArray
+/// goes through `O::uninit` + `uset`, which the Polars backend does not implement
+pub fn known_finding(r: &Req, imp: &str, _spec: &str) -> Option<String> {
+    if r.s("oc") == "pl" && !r.s("b").starts_with("pl") && !r.s("b").starts_with("deque") && imp.starts_with("P:") && imp.contains("do not support set") {
+        return Some("F44".into());
+    }
+    None
+}
+
 pub fn rule(tier: &str) -> String {
-    format!("(a) accessor table (len, checked get at 0..=len, iteration both directions, size hint, every sub-slice a<=b<=len, contiguous view when offered) of 15 input backends (Vec, slice, [T;N], Arc<Vec>, VecDeque head offsets 0/1/3, Arc<VecDeque>, Array1, ArrayViewMut1, ArrayView1 step 1,2,3,-1,-2) against the logical sequence, exhaustive over {{null,1,2}}^len, len <= {}; (b) every catalogued function ({}) on every sized backend (round-robin) and every output container x {{returned, caller buffer}} (incl. a strided ndarray view as caller buffer, checked for writes outside its slots): full values against the single model result. Polars is not built in this harness (see DESIGN). non-trivial = len >= 2 with a non-null output.", if tier == "thorough" { 6 } else { 4 }, ROLL.len())
+    format!("(a) accessor table (len, checked get at 0..=len, iteration both directions, size hint, every sub-slice a<=b<=len, contiguous view when offered) of 15 input backends (Vec, slice, [T;N], Arc<Vec>, VecDeque head offsets 0/1/3, Arc<VecDeque>, Array1, ArrayViewMut1, ArrayView1 step 1,2,3,-1,-2) against the logical sequence, exhaustive over {{null,1,2}}^len, len <= {}; (b) every catalogued function ({}) on every sized backend (round-robin) and every output container x {{returned, caller buffer}} (incl. a strided ndarray view as caller buffer, checked for writes outside its slots): full values against the single model result. Polars cells (ChunkedArray with 1..3 chunks and validity as input backend, and as output container of the returned path) are part of the thorough tier only (harness built with --features polars). non-trivial = len >= 2 with a non-null output.", if tier == "thorough" { 6 } else { 4 }, ROLL.len())
 }
